@@ -18,7 +18,7 @@ Extraction "../driver/model.ml"
   MergePatches.merge_patches
   Folder.vstep Folder.reduce Folder.build Folder.compact Folder.op_create Folder.op_update Folder.op_delete
   SyncProto.sync_log
-  Search.empty_index Search.new_index Search.ix_add Search.ix_remove Search.ix_update Search.count_folder
+  Search.empty_index Search.new_index Search.ix_add Search.ix_remove Search.ix_update Search.ix_remove_vault Search.ix_force Search.ix_forget Search.count_folder
   SrvReq.srv_step
   Paths.sanitize_file_path
   Crash.open_kind Crash.open_kind_rev Crash.steps_create Crash.steps_update Crash.steps_delete Crash.run
